@@ -1,6 +1,7 @@
 (** C20 (d): exact characterisations of verde's argument checks. *)
-From Coq Require Import List Bool Arith ZArith Lia.
-From Verde Require Import Lib.Verdict Model.Checks.
+From Coq Require Import List Bool Arith ZArith QArith Lia.
+From Verde Require Import Lib.Verdict Lib.Dyadic Model.Checks.
+Close Scope Q_scope.
 Import ListNotations.
 
 Lemma shape_eqb_eq : forall a b, shape_eqb a b = true <-> a = b.
@@ -160,6 +161,17 @@ Proof.
   - intros (w & e & s & n & -> & H1 & H2). cbn. apply andb_true_iff. split; apply Z.leb_le; assumption.
 Qed.
 
+(** on exact doubles: accepted iff W <= E and S <= N as real numbers - an
+    inversion by a single ulp is rejected, equality is accepted *)
+Theorem check_region_d_iff : forall r, check_region_d r = true <-> region_valid_d r.
+Proof.
+  intro r. unfold region_valid_d. split.
+  - destruct r as [|w [|e [|s [|n [|x t]]]]]; cbn; try discriminate.
+    intro H. apply andb_true_iff in H as [H1 H2]. apply dle_spec in H1. apply dle_spec in H2.
+    exists w, e, s, n. repeat split; assumption.
+  - intros (w & e & s & n & -> & H1 & H2). cbn. apply andb_true_iff. split; apply dle_spec; assumption.
+Qed.
+
 Theorem one_of_iff : forall a b, one_of a b = true <-> (a = true /\ b = false) \/ (a = false /\ b = true).
 Proof. intros [|] [|]; cbn; split; intro H; try discriminate; try tauto; destruct H as [[? ?]|[? ?]]; discriminate. Qed.
 
@@ -203,7 +215,7 @@ Qed.
 (** strictly consistent calls are accepted by the code (no false rejections) *)
 Theorem consistent_accepted : forall c, consistentb c = true -> run c = true.
 Proof.
-  intros [co d w|co|n nm|n nm|r|r sh sp|sh sp|co d w|k co d w]; cbn; try (intro H; exact H).
+  intros [co d w|co|n nm|n nm|r|r|r sh sp|sh sp|co d w|k co d w]; cbn; try (intro H; exact H).
   - intro H. apply strict_accepted. apply fit_input_strict_iff. exact H.
   - intro H. apply andb_true_iff in H as [H1 H2]. unfold vectorspline_fit. rewrite H2, andb_true_r.
     apply strict_accepted. apply fit_input_strict_iff. exact H1.
